@@ -13,14 +13,47 @@ DISTINCT_RULE = (
 RULES = ["selection-exposure", "market-exposure", "exclusion", "new-order"]
 MINIMA = {"quick": {"rule_selection-exposure": 8000, "rule_market-exposure": 4000, "rule_exclusion": 3000}, "thorough": {"rule_selection-exposure": 400000}}
 ASSUMPTIONS = ["inputs of the brute force are the fields the exchange reports per bet (matched size, average matched price, remaining, limit, liability, status)", "tolerance 0.011 per selection (two 2-dp roundings)"]
-WEIGHTS = [("hostile", 3), ("plain", 2), ("deep", 2), ("multi", 1)]
+WEIGHTS = [("hostile", 3), ("plain", 2), ("deep", 2), ("multi", 1), ("recorded", 1)]
 
 
 def plan(tier, seed):
     return _sim.plan_profiles(tier, seed, WEIGHTS, 3500, 60000)
 
 
+def build_line(desc):
+    """LINE_RANGE market: orders struck at line values, some matched, some resting (every bet is at even money)."""
+    from .. import marketgen as G
+    from .. import ladder as L
+
+    rng = simgen.mk_rng(desc["seed"], desc["idx"], 161)
+    lo, hi, iv = rng.choice(((0.5, 100.5, 1.0), (1.0, 60.0, 1.0), (100.5, 200.5, 1.0)))
+    mid = "1.2%08d" % rng.randint(0, 99999)
+    mf = G.MarketFile(mid, [(5000, 0, None)], market_type="TOTAL_POINTS_LINE", betting_type="LINE", ladder="LINE_RANGE", line=(lo, hi, iv), bsp=False)
+    prices = L.line_prices(lo, hi, iv)
+    mid_i = rng.randrange(3, len(prices) - 3)
+    t = G.T0
+    for i in range(rng.randint(5, 9)):
+        t += 500
+        mf.emit(t, rc={(5000, 0): {"atb": {prices[mid_i - 1]: 6.0}, "atl": {prices[mid_i + 1]: 6.0}, "trd": {prices[mid_i]: 4.0 * (i + 1)}}})
+    t += 500
+    mf.emit(t, md_changes={"status": "SUSPENDED"})
+    t += 500
+    mf.emit(t, md_changes={"status": "CLOSED"}, runner_md={(5000, 0): {"status": "WINNER"}})
+    info = {"marketUnit": "points", "interval": iv, "minUnitValue": lo, "maxUnitValue": hi}
+    actions = []
+    for j in range(rng.randint(2, 6)):
+        pr = prices[max(0, min(len(prices) - 1, mid_i + rng.randint(-3, 3)))]
+        actions.append({"m": mid, "at": rng.randrange(0, 4), "op": "place", "ref": "l%d" % j, "sel": [5000, 0], "side": rng.choice(("BACK", "LAY")), "price": pr, "size": rng.choice((2.0, 4.0, 10.0)), "ladder": "LINE_RANGE", "line_info": info, "persistence": "PERSIST"})
+        if rng.random() < 0.3:
+            actions.append({"m": mid, "at": rng.randrange(2, 6), "op": "cancel", "ref": "l%d" % j, "reduction": rng.choice((None, 1.0))})
+    actions.sort(key=lambda a: a["at"])
+    case = {"seed": desc["seed"], "idx": desc["idx"], "markets": [{"id": mid, "text": mf.text()}], "strategies": [{"name": "S0", "actions": actions}], "config": {"place_latency": 0.0}}
+    return case, {mid: G.read_lines(mf.lines)}
+
+
 def build(desc):
+    if desc["idx"] % 9 == 8:
+        return build_line(desc)
     rng = simgen.mk_rng(desc["seed"], desc["idx"], 16)
     d = dict(desc)
     mp = dict(_sim.PROFILES[desc["profile"]]["market_params"])
